@@ -12,6 +12,7 @@ Require Extraction.
 Require Import ExtrOcamlBasic.
 Require Import Model.Base Model.Includes Model.Front Model.FrontStages Spec.NoSilentSpec.
 Require Model.Ast Model.Desugar Model.LiftFull Model.Dom Model.PipelineMirrors Spec.ExpandSpec Gen.CompilerVersion.
-Separate Extraction Base.base_roots Base.outcome Includes.run_project Includes.canon_idempotent_b Front.front_run
+Separate Extraction Base.base_roots Base.outcome Includes.run_project Includes.canon_idempotent_b
+  Includes.dirs_revisited_b Front.front_run
   FrontStages.stage_run ExpandSpec.stmt_metas Dom.id_order CompilerVersion.compiler_version
   NoSilentSpec.class_table.
